@@ -268,6 +268,12 @@ FaultDocs ==
   \cup { DocF(<<FS("", "items", <<F("", "name")>>), Spr("F")>>, <<Frg("F", "Query", <<FS("", "items", <<F("h", "half"), F("", "flags")>>)>>)>>) }
 CallSites(doc) == LET r == Response(UExec, doc, "", NoVars, {}) IN { <<r.calls[i].node, r.calls[i].field>> : i \in DOMAIN r.calls }
 FamFaults1 == { Case("fault1", d, "", NoVars, {site}) : <<d, site>> \in UNION { {d} \X CallSites(d) : d \in FaultDocs } }
+              \* the operation root itself is refused by the application
+              \cup { Case("fault1", Doc1(<<FS("", "a", <<F("", "name")>>), F("", "title")>>), "", NoVars, {<<"$root", "query">>}),
+                     Case("fault1", [ops |-> <<Op("M", "mutation", <<>>, <<FA("", "set", <<Arg("s", StrV("v"))>>)>>), Op("Q", "query", <<>>, <<F("", "title")>>)>>, frags |-> <<>>],
+                          "M", NoVars, {<<"$root", "mutation">>}),
+                     Case("fault1", [ops |-> <<Op("M", "mutation", <<>>, <<FA("", "set", <<Arg("s", StrV("v"))>>)>>), Op("Q", "query", <<>>, <<F("", "title")>>)>>, frags |-> <<>>],
+                          "Q", NoVars, {<<"$root", "mutation">>}) }
 \* list accessor failures: every index of every list a request walks, alone and together with each resolver failure
 NthDocs == { Doc1(<<FS("", top, <<F("", "name"), FS("k", "kids", <<F("", "n")>>)>>), F("", "title")>>) : top \in {"items", "matrix"} }
 NthSites == { <<"q", "items", "0">>, <<"q", "items", "1">>, <<"q", "items", "2">>, <<"q", "matrix", "0">>, <<"q", "matrix", "2">>, <<"q", "matrix", "3">>,
@@ -348,6 +354,10 @@ FamAbstract ==
   \* named fragments with abstract and concrete conditions
   \cup { Case("abstract", DocF(<<FS("", top, <<Spr("F"), TN>>)>>, <<Frg("F", c, s)>>), "", NoVars, {}) :
            top \in AbsTops, <<c, s>> \in UNION { {c} \X CondSelsAbs[c] : c \in {"A", "B", "Named", "Any", "Solo"} } }
+  \* a value that is no member of the union the field declares
+  \cup { Plain("abstract", s) : s \in { <<FS("", "odd", <<TN>>), F("", "title")>>,
+                                       <<FS("", "odds", <<TN, Inl("A", <<F("", "n")>>), Inl("C", <<F("", "only")>>)>>)>>,
+                                       <<F("", "title"), FS("x", "odd", <<Inl("C", <<F("", "only")>>)>>), FS("", "a", <<F("", "name")>>)>> } }
   \* nested: a fragment on a concrete type reaching another abstract position
   \cup { Plain("abstract", <<FS("", top, <<Inl("A", <<FS("", "peer", <<Inl(c, s), TN>>)>>), Inl("B", <<FS("", "peer", <<Inl("Named", <<F("", "name")>>)>>)>>)>>)>>) :
            top \in {"named", "any"}, <<c, s>> \in {<<"Named", <<F("", "name")>>>>, <<"B", <<F("", "flag")>>>>, <<"A", <<F("", "n")>>>>} }
